@@ -59,3 +59,8 @@ VARIANTS += [
       kind='refactor'),
     M('C07', 'refactor-int-test-by-regex-search', E(PC, "    if type(x) in (int, long_type) or 'int' in dts:", "    if type(x) in (int, long_type) or re.search(r'int', dts):"), kind='refactor'),
 ]
+
+VARIANTS += [
+    M('C07', 'minimum-over-finite-values-only', E(PC, "        else:\n            m = self.df[colname].min()\n", "        else:\n            col = self.df[colname]\n            m = col[np.isfinite(col)].min() if str(col.dtype).startswith('float') else col.min()\n"),
+      rule='C07-OBSERVED', key='calc_min'),
+]
